@@ -169,7 +169,19 @@ pub fn generate(seed: u64, tier: &str, sink: &mut Sink) {
             }
         }
         let head_len = spec_.head_bytes().len().min(wire.len());
-        let (segs, segname) = segment(&mut rng, &wire, &interesting_offsets(&wire, head_len));
+        let (mut segs, segname) = segment(&mut rng, &wire, &interesting_offsets(&wire, head_len));
+        // a hostile or flaky transport: transient and hard I/O errors (and a silence) between or inside
+        // the segments, after which the script goes on — the caller keeps reading after every error
+        if rng.chance(1, 3) && !wire.is_empty() {
+            for _ in 0..rng.range(1, 4) {
+                let p = rng.below(wire.len() as u64) as usize;
+                let k = *rng.pick(&[0u8, 1, 2, 2, 3, 5]);
+                segs = crate::p_c02::splice(&segs, p, Some(Seg::Err(k)), false);
+            }
+            if mname == "none" {
+                mname = "ioerrs";
+            }
+        }
         let reads = if rng.chance(1, 6) {
             Reads::Drain(8192)
         } else {
@@ -235,6 +247,23 @@ pub fn generate(seed: u64, tier: &str, sink: &mut Sink) {
         }
         // every accepted field is at least 8 bytes; (mh+1) lines of at most 16 bytes here
         run_endless("too-many-headers", w, mh, 17 + (mh + 2) * 16 + cap, sink, true);
+    }
+    // the same with field names the client cannot represent (`x y3: v` — dropped, not stored):
+    // they are header fields of the peer all the same and must run into max_headers
+    for mh in [0usize, 1, 8, 100] {
+        for mixed in [false, true] {
+            let mut w = b"HTTP/1.1 200 OK\r\n".to_vec();
+            let mut i = 0;
+            while w.len() < endless_len {
+                if mixed && i % 3 == 0 {
+                    w.extend_from_slice(format!("X-{}: v\r\n", i).as_bytes());
+                } else {
+                    w.extend_from_slice(format!("x y{}: v\r\n", i).as_bytes());
+                }
+                i += 1;
+            }
+            run_endless(if mixed { "too-many-headers-some-invalid-names" } else { "too-many-headers-invalid-names" }, w, mh, 17 + (mh + 2) * 16 + cap, sink, true);
+        }
     }
     // caller raised max_headers beyond what the header map can hold: still no panic
     {
